@@ -76,6 +76,36 @@ theorem tree_conditional_marks_reviewed : Gen.conditionalMarks = reviewedConditi
 /-- The shard function of the engine is the model's: 16 shards, FNV-1a 64 (`get_shard_index`). -/
 theorem tree_shard_function : Gen.shardConsts = (16, fnvOffset, fnvPrime) := by decide
 
+/-- Mutators that BYPASS the storage engine and do not mark, reviewed: the consumer-group handlers take the stream
+    through `StorageEngine::get` — a clone that shares the stream's state — and change groups, consumers, pending
+    entries and the last-delivered id directly.  These are writes of the server (`is_write_command`) and change what
+    XINFO GROUPS / XPENDING / XREADGROUP read back, so by the text of the property they must abort a transaction
+    that watches the stream (open finding C08-group-writes-bypass-watch, repair proposed as C08_8: each handler
+    calls `StorageEngine::touch`).  Redis itself does not call signalModifiedKey for them (only for the key created
+    by XGROUP CREATE … MKSTREAM), so the repair makes ferrous stricter than Redis here, never laxer. -/
+def reviewedBypass : List (String × String × String) :=
+  [("storage/commands/consumer_groups.rs", "handle_xack", "acknowledge_messages"),
+   ("storage/commands/consumer_groups.rs", "handle_xautoclaim", "auto_claim_messages"),
+   ("storage/commands/consumer_groups.rs", "handle_xclaim", "claim_messages"),
+   ("storage/commands/consumer_groups.rs", "handle_xgroup_create", "create_consumer_group"),
+   ("storage/commands/consumer_groups.rs", "handle_xgroup_createconsumer", "create_consumer"),
+   ("storage/commands/consumer_groups.rs", "handle_xgroup_delconsumer", "delete_consumer"),
+   ("storage/commands/consumer_groups.rs", "handle_xgroup_destroy", "destroy_consumer_group"),
+   ("storage/commands/consumer_groups.rs", "handle_xgroup_setid", "set_id"),
+   ("storage/commands/consumer_groups.rs", "handle_xreadgroup", "read_group")]
+
+/-- `all_writes_mark` speaks about the functions of StorageEngine; this closes the hole next to it: every function
+    OUTSIDE the engine that changes the shared state of a stored stream / consumer group / skip list either calls
+    `StorageEngine::touch` (mark_modified) or is one of the reviewed exceptions.  A NEW bypassing mutator breaks it. -/
+theorem no_unmarked_bypass :
+    ∀ x ∈ Gen.bypassMutators, x.2.2.2 = true ∨ (x.1, x.2.1, x.2.2.1) ∈ reviewedBypass := by decide
+
+/-- The reviewed list is exact on the current tree (every listed handler still bypasses without marking) — or, with
+    C08_8 applied, nothing bypasses without marking any more (`reviewedBypass` can then be emptied). -/
+theorem tree_unmarked_bypass_exact :
+    (Gen.bypassMutators.filter (fun x => !x.2.2.2)).map (fun x => (x.1, x.2.1, x.2.2.1)) = reviewedBypass ∨
+    (Gen.bypassMutators.filter (fun x => !x.2.2.2)) = [] := by decide
+
 /-- Keys are binary safe on the WATCH path: handle_watch, handle_unwatch and Server::handle_exec pass the bytes of the
     frame to register_watch / unregister_watch / was_modified_since without any text conversion (a lossy UTF-8
     round trip would make the connection watch another key than the one it named). -/
